@@ -388,7 +388,7 @@ class QueryScheduler:
 
     def _schedule_ptr_query(self, scheduled_query: _ScheduledPTRQuery) -> None:
         """Schedule a query for a pointer."""
-        self._next_scheduled_for_alias[scheduled_query.alias] = scheduled_query
+        self._next_scheduled_for_alias[scheduled_query.alias.lower()] = scheduled_query
         heappush(self._query_heap, scheduled_query)
         self._rearm_if_earlier(scheduled_query.when_millis)
 
@@ -404,13 +404,13 @@ class QueryScheduler:
 
     def cancel_ptr_refresh(self, pointer: DNSPointer) -> None:
         """Cancel a query for a pointer."""
-        scheduled = self._next_scheduled_for_alias.pop(pointer.alias, None)
+        scheduled = self._next_scheduled_for_alias.pop(pointer.alias_key, None)
         if scheduled:
             scheduled.cancelled = True
 
     def reschedule_ptr_first_refresh(self, pointer: DNSPointer) -> None:
         """Reschedule a query for a pointer."""
-        current = self._next_scheduled_for_alias.get(pointer.alias)
+        current = self._next_scheduled_for_alias.get(pointer.alias_key)
         refresh_time_millis = pointer.get_expiration_time(_EXPIRE_REFRESH_TIME_PERCENT)
         if current is not None:
             # If the expire time is within self._min_time_between_queries_millis
@@ -422,7 +422,7 @@ class QueryScheduler:
             ):
                 return
             current.cancelled = True
-            del self._next_scheduled_for_alias[pointer.alias]
+            del self._next_scheduled_for_alias[pointer.alias_key]
         expire_time_millis = pointer.get_expiration_time(100)
         self._schedule_ptr_refresh(pointer, expire_time_millis, refresh_time_millis)
 
@@ -498,7 +498,7 @@ class QueryScheduler:
                 break
             query = heappop(self._query_heap)
             ready_types.add(query.name)
-            del self._next_scheduled_for_alias[query.alias]
+            del self._next_scheduled_for_alias[query.alias.lower()]
             # If there is still more than 10% of the TTL remaining
             # schedule a query again to try to rescue the record
             # from expiring. If the record is refreshed before
